@@ -24,14 +24,17 @@ CLAIMS = {
         'model_checking',
         'TLC checks the C06 monitors (no two locally issued user events / queries carry the same Lamport time; each carries '
         'a time strictly greater than every event / query whose processing had completed when the call began) on '
-        'spec/SerfEventsConc.tla at read/advance granularity for 2 (thorough 3) concurrent callers plus an incoming-message '
-        'thread, and the real Serf.UserEvent / Serf.Query / handlers, yield-instrumented from the working tree, are run '
-        'under every schedule with <=2 (thorough 3) preemptions plus seeded random schedules by a cooperative scheduler; '
-        'every scheduling step is validated by TLC against the specification (subset construction over the unlogged '
-        'locals) with the monitors evaluated on the Lamport times carried by the queued broadcasts.',
+        'spec/SerfEventsConc.tla (time taken by one atomic Increment()-1, then handled) for 2 (thorough 3) concurrent '
+        'callers plus an incoming-message thread: nothing is violated unless a message with time 2^64-1 is processed; the '
+        'real Serf.UserEvent / Serf.Query / handlers, yield-instrumented from the working tree, are run under every '
+        'schedule with <=1 (thorough 2, budgeted) preemptions plus seeded random schedules by a cooperative scheduler; every '
+        'scheduling segment is validated by TLC against the specification (subset construction over the unlogged locals) '
+        'with the monitors evaluated on the Lamport times carried by the queued broadcasts.',
         'Trusts TLC, the yield instrumenter (a yield before every statement of UserEvent, Query, registerQueryResponse, '
         'handleUserEvent, handleQuery; LamportClock operations are atomic steps, their internals are C19), the cooperative '
-        'scheduler. The shared Lamport time of concurrent callers is a genuine defect (tag concurrent_local_calls).',
+        'scheduler. Concurrent callers sharing a time was a genuine defect (fixed in /repo 82cb47c; mutants/m_c06_unfix.diff '
+        'restores it and is caught); the repetition of times after the wrap at 2^64-1 is a recorded consequence of '
+        'C19-wrap-at-max (tag witnessed_max).',
         'TLA+ spec + TLC exhaustive check; systematic schedule enumeration of the instrumented real code; TLC trace '
         'validation by subset construction with property monitors',
         '5 C06',
@@ -351,18 +354,17 @@ def run_c06(ctx, replay=None):
                      (3, 2, 1, 2, [1, 3, MAX], "2 callers x 1 call + 2 incoming with times {1,3,MAX}"),
                      (3, 2, 2, 1, [1, MAX], "2 callers x 2 calls + 1 incoming with times {1,MAX}")]
         for (nt, nl, ll, il, vals, d) in cfgs:
-            r = vlib.tlc(ctx, "MC_SerfEventsConc", mc_conc_cfg(nt, nl, ll, il, vals, "C06"), timeout=3000)
+            # without a message at MAX nothing at all may be violated (concurrent callers included)
+            inv = "C06" if MAX in vals else "C06Strict"
+            r = vlib.tlc(ctx, "MC_SerfEventsConc", mc_conc_cfg(nt, nl, ll, il, vals, inv), timeout=3000)
             if r.violated:
-                raise vlib.Inconclusive("the model violates C06 beyond the recorded findings -- spec error, no verdict:\n" + r.out[-3000:])
+                raise vlib.Inconclusive("the model violates C06 beyond the recorded finding -- spec error, no verdict:\n" + r.out[-3000:])
             tot_d += r.distinct
             tot_g += r.generated
-        # the findings must be reachable in the model, otherwise the waivers are vacuous
-        r = vlib.tlc(ctx, "MC_SerfEventsConc", mc_conc_cfg(2, 2, 1, 0, [1], "C06StrictShared", bs=(2,)), timeout=3000)
-        if not r.violated:
-            raise vlib.Inconclusive("the finding (concurrent callers share a Lamport time) is not reachable in the model")
+        # the remaining finding (wrap at MAX) must be reachable in the model, otherwise its waiver is vacuous
         r = vlib.tlc(ctx, "MC_SerfEventsConc", mc_conc_cfg(2, 1, 1, 1, [MAX], "C06StrictLater", bs=(2,), local=("uev",)), timeout=3000)
         if not r.violated:
-            ctx.log("note: a not-later violation through the wrap is not reachable in the small strict config")
+            raise vlib.Inconclusive("the recorded finding (times not later after the wrap at MAX) is not reachable in the model")
         mc = (tot_d, tot_g, "; ".join(c[5] for c in cfgs))
         progs = conc_programs(ctx)
     maxpre, budget, nrand = (2, 300, 40) if thorough else (1, 120, 12)
